@@ -364,6 +364,12 @@ def leaf_columns(col):
     so = ((bool(sts[0]["opt"]) if len(sts) == 1 else None) if sts else None)
     sopts = [bool(x["opt"]) or bool(x.get("rep")) for x in sts] if sts else None
     mrep = 1 + sum(1 for x in sts if x.get("rep")) + (1 if col.get("top_rep") else 0)
+    if col["kind"] == "list" and col.get("legacy2"):
+        # LogicalTypes.md, backward-compatibility rules: TWO-level list  <row_opt> group NAME (LIST) { repeated <type> element }
+        # - the repeated field IS the element (never null); levels = those of the three-level shape with a required element
+        assert not col["elem_opt"]
+        return [dict(path=top + [col.get("elem_name", "element")], row_opt=col["row_opt"], elem_opt=False, ptype=col["ptype"],
+                     which="elem", struct_opt=so, struct_opts=sopts, max_rep=mrep)]
     if col["kind"] == "list":
         # LogicalTypes.md: the middle group "list" and the leaf "element" are the recommended names; older writers
         # use others (bag/array_element, array/item) and readers must not depend on them
@@ -404,7 +410,12 @@ def schema_elements(cols):
                                         num_children=1, i32=1))
         if sts:
             gname = c["name"].split(".", len(sts))[-1]
-        if c["kind"] == "list":
+        if c["kind"] == "list" and c.get("legacy2"):
+            t, ct = PTYPES[c["ptype"]]
+            out.append(pt.SchemaElement(name=gname, repetition_type=top, num_children=1,
+                                        converted_type=pt.ConvertedType.LIST, i32=1))
+            out.append(pt.SchemaElement(name=c.get("elem_name", "element"), type=t, converted_type=ct, repetition_type=REP, i32=1))
+        elif c["kind"] == "list":
             t, ct = PTYPES[c["ptype"]]
             out.append(pt.SchemaElement(name=gname, repetition_type=top, num_children=1,
                                         converted_type=pt.ConvertedType.LIST, i32=1))
